@@ -449,7 +449,11 @@ def _uses():
                 if is_global_name(root):
                     writes.append((where, f"WRITE-{how} {_txt(t)}{val}"))
                 elif root in params and root not in ("self", "cls"):
-                    writes.append((where, f"PARAM-WRITE-{how} {_txt(t)}{val}"))
+                    # the assigned expression matters where a parameter can alias a process-global table (cut_finding);
+                    # elsewhere (QuantumCircuit.data surgery …) only the target is recorded, so that unrelated edits of the
+                    # right-hand sides do not break C09's obligation
+                    pv = val if m.mod.startswith("cut_finding") else ""
+                    writes.append((where, f"PARAM-WRITE-{how} {_txt(t)}{pv}"))
                 elif root in tainted:
                     writes.append((where, f"ALIAS-WRITE-{how} {_txt(t)}{val}"))
 
